@@ -64,7 +64,7 @@ func readOps(x Inst) []readOp {
 		add("Empty", func() any { return l.Empty() })
 		add("Values", func() any { return ints(l.Values()) })
 		add("String", func() any { return l.String() })
-		add("Get", func() any { v, ok := l.Get(l.Size() - 1); return []any{v, ok} })
+		add("Get", func() any { v, ok := l.Get(l.Size() - 1); w, ok2 := l.Get(l.Size() / 2); return []any{v, ok, w, ok2} })
 		add("IndexOf", func() any { return l.IndexOf(2) })
 		add("Contains", func() any { return l.Contains(1, 2) })
 		add("Iterate", func() any { return iterSeq(x) })
@@ -268,6 +268,9 @@ func jobReaders(j *jobCtx) {
 					pick = append(pick, p)
 				}
 			}
+		}
+		if bp := bigStatePath(x0); bp != nil {
+			pick = append(pick, bp) // a large state: position caches, lazily grown tables only show there
 		}
 		for _, p := range pick {
 			if budgetExceeded() {
